@@ -110,8 +110,7 @@ func (w *Worker) feasible(s *State, cond string) bool {
 	if cond == "false" {
 		return false
 	}
-	r, _ := w.S.Check(s.Decls, s.PC, []string{cond}, nil)
-	return r != "unsat"
+	return w.S.Feasible(s.Decls, s.PC, cond)
 }
 
 // branch forks s on the Bool term c; thenF/elseF position each side.
